@@ -25,7 +25,7 @@ THEOREMS = [
     'Pyiga.Props.C15.row_spec', 'Pyiga.Props.C15.rows_spec', 'Pyiga.Props.C15.kron_partial_spec',
     'Pyiga.Props.C15.sparsity_from_kvs',
     'Pyiga.Props.C15.generator_entry_spec', 'Pyiga.Props.C15.generator_entry_2_spec',
-    'Pyiga.Props.C15.sequential_bidx_as_coded_wrong',
+    'Pyiga.Props.C15.sequential_bidx_as_coded_wrong', 'Pyiga.Props.C15.reorder_entry',
     'Pyiga.Props.C15.matvec_refines', 'Pyiga.Props.C15.asmatrix_preserves_matvec', 'Pyiga.Props.C15.matvec_length',
 ]
 MODULES = ['Pyiga.Model.Index', 'Pyiga.Model.MLMatrix', 'Pyiga.Proofs.Index', 'Pyiga.Proofs.MLMatrix',
